@@ -65,6 +65,7 @@ def check_cluster_masks(P, R, rule="IDX.mask-eq"):
     for key in ("kmeans:e_step", "kmeans:accumulate_indices_means_vars"):
         f = P.func(key)
         du = get_defuse(f, P)
+        n_here = n
         for sub_ in [x for x in walk_no_nested(f.node) if isinstance(x, ast.Subscript) and isinstance(x.slice, ast.Compare)]:
             c = cone(du, sub_.slice.left, du.stmt_of(sub_), interproc=False)
             if not c.calls_any("argmin") and not any(x.endswith("get_closest_centroid_index") for x in c.calls):
@@ -74,7 +75,7 @@ def check_cluster_masks(P, R, rule="IDX.mask-eq"):
             idx = cmp_.comparators[0]
             loopvar = isinstance(idx, ast.Name) and any(isinstance(p_, ast.For) and isinstance(p_.target, ast.Name) and p_.target.id == idx.id for p_ in _parents(sub_))
             R.check(isinstance(cmp_.ops[0], ast.Eq) and loopvar, rule, key, src(sub_)[:60], "samples assigned to the cluster being accumulated", f"cluster statistics are accumulated over `{src(cmp_)}`, not over the samples whose nearest centroid *is* the cluster", sub_.lineno)
-    R.floor(rule, n, 3)
+        R.floor(f"{rule} ({key})", n - n_here, 1)  # at least one per function: selecting the cluster's samples once or per statistic are both fine
 
 
 def _parents(n):
